@@ -49,6 +49,9 @@ def ShapedAgree (P Q : Policy) (gs : Grids) (lo ln : Nat → Except Err Val) : E
   | .un _ e | .red _ _ e | .idx _ e | .reshape _ e | .ravel e | .copy e | .pickle e => ShapedAgree P Q gs lo ln e
   | .mask e m => ShapedAgree P Q gs lo ln e ∧ ShapedAgree P Q gs lo ln m
   | .shaped e => ShapedAgree P Q gs lo ln e ∧ tagOf (eval P gs lo e) = tagOf (eval Q gs ln e)
+  | .app1 _ e => ShapedAgree P Q gs lo ln e
+  | .app2 _ a b => ShapedAgree P Q gs lo ln a ∧ ShapedAgree P Q gs lo ln b
+  | .app3 _ a b c => ShapedAgree P Q gs lo ln a ∧ ShapedAgree P Q gs lo ln b ∧ ShapedAgree P Q gs lo ln c
 
 /-- `shaped` does not occur -/
 def NoShaped : Expr → Prop
@@ -57,6 +60,9 @@ def NoShaped : Expr → Prop
   | .un _ e | .red _ _ e | .idx _ e | .reshape _ e | .ravel e | .copy e | .pickle e => NoShaped e
   | .mask e m => NoShaped e ∧ NoShaped m
   | .shaped _ => False
+  | .app1 _ e => NoShaped e
+  | .app2 _ a b => NoShaped a ∧ NoShaped b
+  | .app3 _ a b c => NoShaped a ∧ NoShaped b ∧ NoShaped c
 
 theorem shapedAgree_of_noShaped (P Q : Policy) (gs : Grids) (lo ln : Nat → Except Err Val) (e : Expr)
     (h : NoShaped e) : ShapedAgree P Q gs lo ln e := by
@@ -75,6 +81,9 @@ theorem shapedAgree_of_noShaped (P Q : Policy) (gs : Grids) (lo ln : Nat → Exc
   | ravel e ih => exact ih h
   | copy e ih => exact ih h
   | pickle e ih => exact ih h
+  | app1 f e ih => exact ih h
+  | app2 f a b iha ihb => exact ⟨iha h.1, ihb h.2⟩
+  | app3 f a b c iha ihb ihc => exact ⟨iha h.1, ihb h.2.1, ihc h.2.2⟩
 
 /-- **Expressions: any two wrapping policies give the same values**, provided variables read the
 same values (and `shaped` sees the same kind of object).  By structural induction; the kernels
@@ -134,6 +143,46 @@ theorem eval_same_values (P Q : Policy) (gs : Grids) (lo ln : Nat → Except Err
     rcases dataOf_eq_cases (ih hs) with ⟨e, h1, h2⟩ | ⟨a, t, u, h1, h2⟩
     · simp [eval, h1, h2]
     · simp [eval, h1, h2, Prim.setstate, Prim.getstate]
+  | app1 f e ih =>
+    rcases dataOf_eq_cases (ih hs) with ⟨e, h1, h2⟩ | ⟨a, t, u, h1, h2⟩
+    · simp [eval, h1, h2]
+    · simp only [eval, h1, h2, dataOf_map]
+  | app2 f x y ihx ihy =>
+    rcases dataOf_eq_cases (ihx hs.1) with ⟨e, h1, h2⟩ | ⟨a, t, u, h1, h2⟩
+    · simp [eval, h1, h2]
+    · rcases dataOf_eq_cases (ihy hs.2) with ⟨e, h3, h4⟩ | ⟨b, t', u', h3, h4⟩
+      · simp [eval, h1, h2, h3, h4]
+      · simp only [eval, h1, h2, h3, h4, dataOf_map]
+  | app3 f x y z ihx ihy ihz =>
+    rcases dataOf_eq_cases (ihx hs.1) with ⟨e, h1, h2⟩ | ⟨a, t, u, h1, h2⟩
+    · simp [eval, h1, h2]
+    · rcases dataOf_eq_cases (ihy hs.2.1) with ⟨e, h3, h4⟩ | ⟨b, t', u', h3, h4⟩
+      · simp [eval, h1, h2, h3, h4]
+      · rcases dataOf_eq_cases (ihz hs.2.2) with ⟨e, h5, h6⟩ | ⟨c, t'', u'', h5, h6⟩
+        · simp [eval, h1, h2, h3, h4, h5, h6]
+        · simp only [eval, h1, h2, h3, h4, h5, h6, dataOf_map]
+
+/-- argument lists: the same exception, or value lists with the same arrays -/
+theorem evalArgs_same_values (P Q : Policy) (gs : Grids) (lo ln : Nat → Except Err Val)
+    (hl : ∀ x, dataOf (lo x) = dataOf (ln x)) (es : List Expr)
+    (hs : ∀ e ∈ es, ShapedAgree P Q gs lo ln e) :
+    (evalArgs P gs lo es).map (·.map Prod.fst) = (evalArgs Q gs ln es).map (·.map Prod.fst) := by
+  induction es with
+  | nil => rfl
+  | cons e es ih =>
+    have he := eval_same_values P Q gs lo ln hl e (hs e (List.mem_cons_self))
+    have hes := ih (fun e' h' => hs e' (List.mem_cons_of_mem _ h'))
+    rcases dataOf_eq_cases he with ⟨err, h1, h2⟩ | ⟨a, t, u, h1, h2⟩
+    · simp [evalArgs, h1, h2, Except.map]
+    · cases ho : evalArgs P gs lo es with
+      | error e1 =>
+        cases hn : evalArgs Q gs ln es with
+        | error e2 => rw [ho, hn] at hes; simp [Except.map] at hes; simp [evalArgs, h1, h2, ho, hn, Except.map, hes]
+        | ok vs => rw [ho, hn] at hes; simp [Except.map] at hes
+      | ok vs =>
+        cases hn : evalArgs Q gs ln es with
+        | error e2 => rw [ho, hn] at hes; simp [Except.map] at hes
+        | ok ws => rw [ho, hn] at hes; simp [Except.map] at hes; simp [evalArgs, h1, h2, ho, hn, Except.map, hes]
 
 
 /-! ## Statements: the two stores stay related -/
@@ -185,10 +234,9 @@ theorem look_rel {so : OState} {sn : NState} (h : Rel so sn) (x : Nat) :
 
 /-- what a statement needs for `shaped` (see `ShapedAgree`) -/
 def StmtAgree (gs : Grids) (so : OState) (sn : NState) : Stmt → Prop
-  | .assign _ e | .iop _ _ e | .setIx _ _ e => ShapedAgree oldPolicy newPolicy gs so.look sn.look e
+  | .assign _ e => ShapedAgree oldPolicy newPolicy gs so.look sn.look e
   | .alias _ _ => True
-  | .setMask _ m e => ShapedAgree oldPolicy newPolicy gs so.look sn.look m ∧
-      ShapedAgree oldPolicy newPolicy gs so.look sn.look e
+  | .update _ _ args => ∀ e ∈ args, ShapedAgree oldPolicy newPolicy gs so.look sn.look e
 
 /-- outcome of one statement under both routes: the same exception, or related stores -/
 def StepRel (ro : Except Err OState) (rn : Except Err NState) : Prop :=
@@ -225,7 +273,7 @@ theorem step_rel (gs : Grids) {so : OState} {sn : NState} (h : Rel so sn) (st : 
     | some r =>
       simp only [Option.map_some, StepRel]
       exact ⟨by simpa using bind_refBuf sn.vars y r, h.cells⟩
-  | iop x op e =>
+  | update x u args =>
     simp only [stepO, stepN, h.vars, lookup_refBuf]
     cases hx : sn.vars.lookup x with
     | none => simp [StepRel]
@@ -236,64 +284,27 @@ theorem step_rel (gs : Grids) {so : OState} {sn : NState} (h : Rel so sn) (st : 
       | none => simp [StepRel]
       | some xv =>
         simp only [Option.map_some]
-        rcases dataOf_eq_cases (evalON h e hs) with ⟨err, h1, h2⟩ | ⟨a, t, u, h1, h2⟩
-        · simp [h1, h2, StepRel]
-        · simp only [h1, h2]
-          cases hp : Prim.inplace op xv.1 a with
-          | error err => simp [StepRel, Except.map]
-          | ok b =>
-            simp only [StepRel, Except.map]
-            exact ⟨by simpa [h.vars] using bind_refBuf sn.vars x (r.1, iopTagN r.2 u), set_rel h r.1 b xv.2⟩
-  | setIx x i e =>
-    simp only [stepO, stepN, h.vars, lookup_refBuf]
-    cases hx : sn.vars.lookup x with
-    | none => simp [StepRel]
-    | some r =>
-      simp only [Option.map_some]
-      rw [← cells_get h r.1]
-      cases hcell : so.cells[r.1]? with
-      | none => simp [StepRel]
-      | some xv =>
-        simp only [Option.map_some]
-        rcases dataOf_eq_cases (evalON h e hs) with ⟨err, h1, h2⟩ | ⟨a, t, u, h1, h2⟩
-        · simp [h1, h2, StepRel]
-        · simp only [h1, h2]
-          cases hsel : Prim.select i xv.1.shape with
-          | error err => simp [StepRel]
-          | ok sel =>
-            dsimp only
-            cases hp : Prim.scatter xv.1 sel a with
+        have hargs := evalArgs_same_values oldPolicy newPolicy gs so.look sn.look (look_rel h) args hs
+        cases ho : evalArgs oldPolicy gs so.look args with
+        | error e1 =>
+          cases hn : evalArgs newPolicy gs sn.look args with
+          | error e2 => rw [ho, hn] at hargs; simp [Except.map] at hargs; simp [StepRel, hargs]
+          | ok ws => rw [ho, hn] at hargs; simp [Except.map] at hargs
+        | ok vs =>
+          cases hn : evalArgs newPolicy gs sn.look args with
+          | error e2 => rw [ho, hn] at hargs; simp [Except.map] at hargs
+          | ok ws =>
+            rw [ho, hn] at hargs
+            simp only [Except.map, Except.ok.injEq] at hargs
+            simp only [hargs]
+            cases hp : Prim.update u xv.1 (List.map Prod.fst ws) with
             | error err => simp [StepRel, Except.map]
             | ok b =>
               simp only [StepRel, Except.map]
-              exact ⟨by simp [h.vars], set_rel h r.1 b xv.2⟩
-  | setMask x m e =>
-    simp only [stepO, stepN, h.vars, lookup_refBuf]
-    cases hx : sn.vars.lookup x with
-    | none => simp [StepRel]
-    | some r =>
-      simp only [Option.map_some]
-      rw [← cells_get h r.1]
-      cases hcell : so.cells[r.1]? with
-      | none => simp [StepRel]
-      | some xv =>
-        simp only [Option.map_some]
-        rcases dataOf_eq_cases (evalON h m hs.1) with ⟨err, h1, h2⟩ | ⟨am, tm, um, h1, h2⟩
-        · simp [h1, h2, StepRel]
-        · simp only [h1, h2]
-          rcases dataOf_eq_cases (evalON h e hs.2) with ⟨err, h3, h4⟩ | ⟨a, t, u, h3, h4⟩
-          · simp [h3, h4, StepRel]
-          · simp only [h3, h4]
-            cases hsel : Prim.selectMask am xv.1.shape with
-            | error err => simp [StepRel]
-            | ok sel =>
-              dsimp only
-              cases hp : Prim.scatter xv.1 sel a with
-              | error err => simp [StepRel, Except.map]
-              | ok b =>
-                simp only [StepRel, Except.map]
-                exact ⟨by simp [h.vars], set_rel h r.1 b xv.2⟩
-
+              refine ⟨?_, set_rel h r.1 b xv.2⟩
+              cases hr : Upd.rebinds u with
+              | false => simp [h.vars]
+              | true => simpa [h.vars] using bind_refBuf sn.vars x (r.1, iopTagN r.2 ((ws.map Prod.snd).headD .plain))
 
 /-! ## Programs -/
 
@@ -304,9 +315,9 @@ def ProgAgree (gs : Grids) : OState → NState → List Stmt → Prop
       ∀ so' sn', stepO gs so st = .ok so' → stepN gs sn st = .ok sn' → ProgAgree gs so' sn' rest
 
 def StmtNoShaped : Stmt → Prop
-  | .assign _ e | .iop _ _ e | .setIx _ _ e => NoShaped e
+  | .assign _ e => NoShaped e
   | .alias _ _ => True
-  | .setMask _ m e => NoShaped m ∧ NoShaped e
+  | .update _ _ args => ∀ e ∈ args, NoShaped e
 
 theorem progAgree_of_noShaped (gs : Grids) (p : List Stmt) (h : ∀ st ∈ p, StmtNoShaped st) :
     ∀ so sn, ProgAgree gs so sn p := by
@@ -319,9 +330,7 @@ theorem progAgree_of_noShaped (gs : Grids) (p : List Stmt) (h : ∀ st ∈ p, St
     cases st with
     | assign x e => exact shapedAgree_of_noShaped _ _ _ _ _ e hst
     | alias y x => trivial
-    | iop x op e => exact shapedAgree_of_noShaped _ _ _ _ _ e hst
-    | setIx x i e => exact shapedAgree_of_noShaped _ _ _ _ _ e hst
-    | setMask x m e => exact ⟨shapedAgree_of_noShaped _ _ _ _ _ m hst.1, shapedAgree_of_noShaped _ _ _ _ _ e hst.2⟩
+    | update x u args => exact fun e he => shapedAgree_of_noShaped _ _ _ _ _ e (hst e he)
 
 theorem dump_rel {so : OState} {sn : NState} (h : Rel so sn) :
     dumpData so.dump = dumpData sn.dump := by
